@@ -68,8 +68,8 @@ type Exec struct {
 	notes         map[string]bool
 	visited       map[*ssa.BasicBlock]bool // blocks of the unit's own function some path entered
 	deepSite      bool
-	curCallee     string // full name of the callee a "site call" assertion is being evaluated at
-	curSelect     *ssa.Select // the select statement a "site select" assertion is being evaluated at
+	curCallee     string       // full name of the callee a "site call" assertion is being evaluated at
+	curSelect     *ssa.Select  // the select statement a "site select" assertion is being evaluated at
 	symObjs       map[int]bool // objects standing for the pointees of symbolic (input or havocked) pointers
 	frameCounter  int
 	cronExprs     map[string]Term     // schedule id -> the expression it was parsed from
@@ -505,6 +505,17 @@ func (x *Exec) step(st *State) {
 		if !x.derefCheck(st, p, "store through nil pointer", in.Pos()) {
 			return
 		}
+		// "site store <Field> assert e": e holds whenever the function under contract assigns a struct field of
+		// that name; old is the field's value before the assignment, val the value assigned
+		if fa, ok := in.Addr.(*ssa.FieldAddr); ok && x.contract != nil && x.contract.Directives["site"] != nil && len(st.frames) > 0 && fr == st.frames[0] {
+			if stt, ok := fa.X.Type().Underlying().(*types.Pointer).Elem().Underlying().(*types.Struct); ok {
+				ft := stt.Field(fa.Field).Type()
+				x.siteAsserts(st, fr, "store", stt.Field(fa.Field).Name(), map[string]TV{"old": {x.load(st, p.Loc), ft}, "val": {val, ft}})
+				if st.dead {
+					return
+				}
+			}
+		}
 		x.store(st, p.Loc, val)
 		x.onElementStored(st, p.Loc, val)
 		fr.ip++
@@ -661,6 +672,7 @@ func (x *Exec) valueInstr(st *State, fr *Frame, in ssa.Value) {
 			binds[k] = x.eval(st, fr, b)
 		}
 		set(VClosure{Fn: i.Fn.(*ssa.Function), Binds: binds})
+		x.capturedRequires(st, fr, i, binds)
 	case *ssa.MakeMap:
 		if isStringMap(i.Type()) {
 			obj := x.alloc(st, MapSS{A: Term{"smap.empty", SMapSS}})
